@@ -68,7 +68,7 @@ fn spec_for(prop: &str, tier: &str, seed: u64) -> RunSpec {
         }
         "C09" | "C10" | "C13" => {
             s.rule = "seeded random walks (30-200 operations) over the public modification API of Schedule, starting from the empty schedule, one-vehicle-per-trip and the min-cost-flow solution; after every Ok operation the full observable state is snapshotted and judged; non-trivial = distinct (instance, operation kind, argument shape) triples that returned Ok and changed the state; monitor_counters lists every covered shape cell".to_string();
-            s.cases = if thorough { 60000 } else { 6000 };
+            s.cases = if thorough { 400000 } else { 6000 };
             s.min_nontrivial = 50;
         }
         "C08" => {
@@ -95,14 +95,15 @@ fn spec_for(prop: &str, tier: &str, seed: u64) -> RunSpec {
             s.min_nontrivial = 10;
         }
         "C18" => {
-            s.rule = "scenarios against the real server binary on an ephemeral port (one process per scenario): 4-64 concurrent std::net client threads released by a barrier mix GET /health, POST /solve with fresh uniquely tagged valid instances (pre-screened by an isolated dry run; a third of them large), and the fixed list of fault kinds (not JSON, truncated JSON, wrong content type, empty body, 5 MB garbage, dribbled body, disconnect mid-body, missing field, dangling reference, bad timestamp, matrix mismatch, unknown route, wrong method) with seeded delays; the history is recorded at the client boundary from one monotonic clock (a request without a response stays open) and judged offline: health = 200 Healthy, every answered valid solve carries exactly its own departure segments and passes the C01-C05/C07 oracles for its own input, faults never yield a schedule, the process is alive and answers a health and a solve probe after the burst. non-trivial = distinct interleaving signatures of scenarios in which >= 2 valid solves overlapped each other and >= 1 overlapped a request that panics inside the handler".to_string();
+            s.rule = "scenarios against the real server binary on an ephemeral port (one process per scenario): 4-64 concurrent std::net client threads released by a barrier mix GET /health, POST /solve with fresh uniquely tagged valid instances (pre-screened by an isolated dry run; a third of them large), and the fixed list of fault kinds (not JSON, truncated JSON, wrong content type, empty body, 5 MB garbage, dribbled body, disconnect mid-body, missing field, dangling reference, bad timestamp, matrix mismatch, location missing in the dead-head matrix (at a route origin / at a depot), maintenance slot ending before it starts, dangling vehicle type, ragged matrix, unknown route, wrong method) with seeded delays; the history is recorded at the client boundary from one monotonic clock (a request without a response stays open) and judged offline: health = 200 Healthy, every answered valid solve carries exactly its own departure segments and passes the C01-C05/C07 oracles for its own input, faults never yield a schedule, the process is alive and answers a health and a solve probe after the burst. non-trivial = distinct interleaving signatures of scenarios in which >= 2 valid solves overlapped each other and >= 1 overlapped a request that panics inside the handler".to_string();
             s.level = "fault_enumeration".to_string();
             s.cases = if thorough { 400 } else { 48 };
             s.workers = 8;
             s.cpu_budget_s = 900.0;
             s.min_nontrivial = 4;
             s.rayon_threads = vec![2];
-            s.extra_coverage.insert("fault_kinds".into(), serde_json::json!(["not_json", "truncated_json", "wrong_content_type", "empty_body", "garbage_5mb", "dribbled_body", "disconnect_mid_body", "missing_field", "dangling_reference", "bad_timestamp", "matrix_mismatch", "unknown_route", "wrong_method"]));
+            s.extra_coverage.insert("fault_kinds".into(), serde_json::json!(["not_json", "truncated_json", "wrong_content_type", "empty_body", "garbage_5mb", "dribbled_body", "disconnect_mid_body", "missing_field", "dangling_reference", "bad_timestamp", "matrix_mismatch", "location_not_in_matrix_at_origin", "location_not_in_matrix_at_depot", "slot_ends_before_start", "dangling_vehicle_type", "ragged_matrix", "unknown_route", "wrong_method"]));
+            s.extra_coverage.insert("soak".into(), serde_json::json!("every third scenario continues, after the concurrent burst, with 480 (quick) / 2000 (thorough) failing requests from 8 threads against the same server process and then solves every valid instance once more"));
         }
         "C12" => {
             let fam = p_tour::family_chunks(thorough);
@@ -117,18 +118,18 @@ fn spec_for(prop: &str, tier: &str, seed: u64) -> RunSpec {
         }
         "C15" => {
             s.rule = format!("(a) bounded-exhaustive: 4 hand-picked vehicles (maintenance-visiting and not, depots P0/P1/overflow) on a fixed small instance, ALL sequences of Transition operations (new_fast, update_vehicle via replace_start/end_depot, add_vehicle_to_own_cycle, remove_vehicle, add_vehicle_at_the_end, move_vehicle incl. into empty cycles, three_opt+replace_cycle) up to length {} from 4 start transitions, bookkeeping (cycles, lookup and empty list through hook H3, counters, totals, successor) recomputed after every operation; (b) random sequences of 50-300 operations on up to 12 vehicles of generated instances; (c) the transitions of pipeline start solutions and the transition optimiser applied to them. non-trivial = distinct operation sequences that passed through a state with an empty cycle, a singleton cycle and a negative counter, plus optimiser runs that changed the transition", p_trans::exhaustive_depth(thorough));
-            s.cases = if thorough { 3000 } else { 520 };
+            s.cases = if thorough { 30000 } else { 520 };
             s.cpu_budget_s = 120.0;
             s.extra_coverage.insert("exhaustive".into(), serde_json::json!(true));
             s.extra_coverage.insert("exhaustive_note".into(), serde_json::json!(format!("all operation sequences up to length {} over the 4-vehicle world were enumerated (cases 0..exhaustive_cases are the subtrees per start world and first operation); valid only if no case was inconclusive", p_trans::exhaustive_depth(thorough))));
         }
         "C14" => {
             s.rule = "instances with decoupled depot totals from the seeded generator; MinCostFlowSolver::solve() is observed through public getters and compared per vehicle type with an independent min-cost circulation (successive shortest paths, lexicographic (vehicles, cost)) over ALL connectable pairs; non-trivial = distinct instances whose start solution chains >= 2 activities in some tour".to_string();
-            s.cases = if thorough { 300000 } else { 20000 };
+            s.cases = if thorough { 3000000 } else { 20000 };
         }
         "C17" => {
             s.rule = "instances from the seeded generator (emphasis ties, non-metric, forbidden dead-heads); every public getter of the loaded Network is compared with the reference model, can_reach for ALL ordered node pairs, successors/predecessors for every node and type as sets; non-trivial = distinct instances containing >= 1 zero-slack pair and >= 1 pair with a location change".to_string();
-            s.cases = if thorough { 200000 } else { 10000 };
+            s.cases = if thorough { 2000000 } else { 10000 };
         }
         "C07" => s.rule = format!("{}non-trivial = distinct instances with a segment needing >= 2 vehicles", gen_rule),
         _ => {}
@@ -259,6 +260,13 @@ fn main() {
             let seed: u64 = args[2].parse().unwrap();
             let mut r = rng::Rng::new(seed);
             println!("{}", serde_json::to_string(&gen::chain_network(&mut r, &format!("g{}", seed))).unwrap());
+        }
+        "genline" => {
+            // vmon genline <seed> <ndep> <slots 0/1> <long distance 0/1>
+            let seed: u64 = args[2].parse().unwrap();
+            let mut r = rng::Rng::new(seed);
+            let v = gen::line_network(&mut r, &format!("g{}", seed), args[3].parse().unwrap(), args[4] == "1", args[5] == "1");
+            println!("{}", serde_json::to_string(&v).unwrap());
         }
         "gen" => {
             // vmon gen <profile> <seed> <max_dep>: print one instance (debugging aid)
